@@ -38,6 +38,10 @@ def _set_ctx(c):
     _CTX = c
 
 
+CVC5_SAMPLE = [0]        # 0 = off; N = cross-check every N-th discharged VC with cvc5 (thorough tier)
+CVC5_STATS = {'seen': 0}
+
+
 class Ctx:
     """One execution path: solver with the path condition, decision prefix to replay, new alternatives found."""
     CONCRETISE_CAP = 600
@@ -181,10 +185,38 @@ class Ctx:
             return 'proved', None
         r = self._check(z3.Not(g))
         if r == z3.unsat:
+            if CVC5_SAMPLE[0]:
+                self._cvc5_crosscheck(g)
             return 'proved', None
         if r == z3.sat:
             return 'refuted', self._model_dict()
         return 'unknown', self.solver.reason_unknown()
+
+    def _cvc5_crosscheck(self, g):
+        """second back end (thorough tier): every CVC5_SAMPLE-th discharged VC is exported as SMT-LIB2 and given to /usr/bin/cvc5;
+        'sat' from cvc5 on a VC z3 proved is a back-end disagreement (recorded, reported as a checker fault by the driver)"""
+        CVC5_STATS['seen'] += 1
+        if CVC5_STATS['seen'] % CVC5_SAMPLE[0]:
+            return
+        import subprocess
+        import tempfile
+        s2 = z3.Solver()
+        for c in self.pc:
+            s2.add(c)
+        s2.add(z3.Not(g))
+        txt = '(set-logic ALL)\n' + s2.to_smt2()
+        try:
+            with tempfile.NamedTemporaryFile('w', suffix='.smt2', delete=True) as f:
+                f.write(txt)
+                f.flush()
+                p = subprocess.run(['/usr/bin/cvc5', '--tlimit=5000', f.name], capture_output=True, text=True, timeout=20)
+            out = p.stdout.strip().splitlines()[-1] if p.stdout.strip() else 'error'
+        except Exception as e:      # noqa
+            out = 'error'
+        key = out if out in ('unsat', 'sat', 'unknown') else 'error'
+        CVC5_STATS[key] = CVC5_STATS.get(key, 0) + 1
+        if key == 'sat':
+            CVC5_STATS.setdefault('disagreements', []).append(str(g)[:300])
 
     def _model_dict(self):
         m = self.solver.model()
